@@ -589,3 +589,31 @@ def string_arms(ck, rule):
                 seen.add(("nfv", arm))
                 ck.bad(rule, fm, "value strings are parsed with the object's n_frac", "%s arm passes n_frac=%s" % (arm, src(nfa) if nfa is not None else None), ce.stmt)
     ck.check(n_raw > 0 and n_val > 0, rule, fm, "string arms examined: %d raw paths, %d value paths" % (n_raw, n_val), "string arms not found (%d/%d)" % (n_raw, n_val), fm.node)
+
+
+def decimal_arm(ck, rule):
+    """C01.R8: decimal strings are converted by float(x) / int(x) / complex(x) applied to the string itself: no truncating conversion (int(float(x)),
+    round, floor) sits between the text and the rounding stage of set_val."""
+    prog = ck.prog
+    f = prog.func("utils.str2num")
+    n = 0
+    seen = set()
+    for pf in fpaths(prog, f):
+        for st in pf.stores:
+            if st.path != "val" or st.depth:
+                continue
+            v = st.raw_value
+            if not isinstance(v, ast.Call) or dotted(v.func) not in ("int", "float", "complex", "round", "np.floor", "np.trunc", "math.floor", "math.trunc"):
+                continue
+            inner = v.args[0] if v.args else None
+            nested = isinstance(inner, ast.Call) and dotted(inner.func) in ("float", "Decimal", "complex")
+            trunc = dotted(v.func) in ("int", "round", "np.floor", "np.trunc", "math.floor", "math.trunc") and nested
+            n += 1
+            k = src(v)
+            if k in seen:
+                continue
+            seen.add(k)
+            ck.check(not trunc, rule, f, "string inputs are parsed without a truncating conversion of their own", "val = %s" % src(v)[:60], st.stmt,
+                     "the fractional digits are dropped before scaling: the configured rounding mode never sees them")
+    if n == 0:
+        raise AnalysisError("str2num: numeric conversions not found")
